@@ -390,6 +390,7 @@ def shared_state(chk, prog, modules=("cnvlib", "skgenome")):
     """class attributes / module-level names bound to a dict, list or set and written inside a function, directly or through a local alias
     (shared with C06 / C12 for the interval operations: resize_ranges(bp) after resize_ranges(bp, chrom_sizes) must not see the earlier call's sizes)"""
     hits = [(fi, n, d) for fi, n, d in rules.shared_mutable_state(prog, modules) if "__all__" not in d and not fi.mod.startswith("cnvlib.commands")]
+    hits += [(fi, n, d) for fi, n, d in rules.cached_result_mutations(prog) if fi.mod.startswith(tuple(modules))]
     for fi, n, d in hits:
         chk.violate("no-hidden-state", f"{fi.qn}::{norm(n)[:60]}", fi.loc(n), f"{d}: the container outlives the call, so what {fi.name} returns depends on the calls made before it in the same process "
                     "(build the container inside the function instead)")
